@@ -5,6 +5,7 @@ import Driver.NcchCmd
 import Driver.CiaCmd
 import Driver.SaveCmd
 import Driver.NandCmd
+import Driver.CloseCmd
 open Pyctr
 
 /-- `(fileops NODE (OP …))` → one rendered output per op, then the bottom buffers -/
@@ -42,6 +43,7 @@ def handle (line : String) : String :=
     | "exefs-parse" | "exefs-build" | "exefs-norm" | "exefs-lookup" => handleExefs cmd args
     | "save-run" | "cmac" => handleSave cmd args
     | "nand-open" | "nand-ops" | "nand-hdr" => handleNand cmd args
+    | "close-run" => handleClose args
     | "ping" => "pong"
     | _ => "bad-cmd"
   | _ => "bad-line"
